@@ -18,7 +18,7 @@ RULE = (
 )
 REQUIRED = ["poly_exact", "poly_degree_2n_not_exact", "dist_not_mutated", "lik_expected_log_prob", "lik_log_marginal", "bernoulli_marginal", "conditional_params", "log_normal_cdf", "log_normal_cdf_grad", "truncation_error_shrinks"]
 ASSUMPTIONS = [
-    "likelihood integrals are compared with the exact Gauss-Hermite rule (mpmath nodes/weights) applied to the documented conditional density; the truncation error vs mpmath.quad is only required to be smaller at 64 nodes than at 8",
+    "likelihood integrals are compared with the exact Gauss-Hermite rule (mpmath nodes/weights) applied to the documented conditional density; the truncation error vs mpmath.quad is only required to have a smaller envelope (worst over 5 points and 60..64 nodes) than at 6..10 nodes",
     "Bernoulli expected_log_prob integrates the library's approximate log_normal_cdf: compared at 2e-3",
 ]
 ANCHOR_FILES = ["gpytorch/utils/quadrature.py", "gpytorch/likelihoods/", "gpytorch/functions/_log_normal_cdf.py"]
@@ -344,7 +344,10 @@ def _bern(case, ctx, g):
 
 
 def _trunc(case, ctx, g):
-    """bounded restatement of 'truncation error shrinks as nodes are added': error vs adaptive integration at 64 nodes < at 8"""
+    """bounded restatement of 'truncation error shrinks as nodes are added'. The error of a Gauss-Hermite rule on a
+    non-smooth integrand (Laplace: kink at f=y) is NOT monotone in the node count point by point (lucky cancellations at
+    small n), so the envelope is compared: worst error over several (m, v, y) and over 6..10 nodes against the worst
+    over 60..64 nodes, both against adaptive integration (mpmath.quad)."""
     import mpmath as mp
     import torch
 
@@ -354,22 +357,25 @@ def _trunc(case, ctx, g):
     from vf import util
 
     mp.mp.dps = 25
-    m, v, y = util.randn(g, 2), util.rand(g, 2) + 0.2, util.randn(g, 2)
+    P = 5
+    m, v, y = util.randn(g, P), util.rand(g, P) + 0.2, util.randn(g, P)
+    c0 = dict(case, num_locs=8, batch=[])
+    ld = _logdens(c0, _lik_objects(c0, util.gen(case["seed"])), 0)
+    true = []
+    for i in range(P):
+        yy, mm, vv = mp.mpf(float(y[i])), mp.mpf(float(m[i])), mp.mpf(float(v[i]))
+        true.append(float(mp.quad(lambda f: ld(yy, f) * mp.npdf(f, mm, mp.sqrt(vv)), [-mp.inf, yy, mm, mp.inf] if yy < mm else [-mp.inf, mm, yy, mp.inf])))
+    true = torch.tensor(true)
     errs = {}
-    for nl in (8, 64):
+    for nl in (6, 7, 8, 9, 10, 60, 61, 62, 63, 64):
         c = dict(case, num_locs=nl, batch=[])
         lik = _lik_objects(c, util.gen(case["seed"]))
         with torch.no_grad():
             elp = lik.expected_log_prob(y, MVN(m, torch.diag_embed(v)))
-        ld = _logdens(c, lik, 0)
-        e = 0.0
-        for i in range(2):
-            yy, mm, vv = mp.mpf(float(y[i])), mp.mpf(float(m[i])), mp.mpf(float(v[i]))
-            true = mp.quad(lambda f: ld(yy, f) * mp.npdf(f, mm, mp.sqrt(vv)), [-mp.inf, yy, mm, mp.inf] if yy < mm else [-mp.inf, mm, yy, mp.inf])
-            e = max(e, abs(float(true) - float(elp[i])))
-        errs[nl] = e
-    ctx.expect("truncation_error_shrinks", errs[64] < errs[8] or errs[64] < 1e-12, f"{case['lik']}: |error| at 64 nodes {errs[64]:.3e} not below error at 8 nodes {errs[8]:.3e}")
-    ctx.notes[f"truncation_error_{case['lik']}"] = {"n8": errs[8], "n64": errs[64]}
+        errs[nl] = float((elp - true).abs().max())
+    small, large = max(errs[n_] for n_ in (6, 7, 8, 9, 10)), max(errs[n_] for n_ in (60, 61, 62, 63, 64))
+    ctx.expect("truncation_error_shrinks", large < small or large < 1e-12, f"{case['lik']}: worst |error| over 60..64 nodes {large:.3e} not below worst over 6..10 nodes {small:.3e}")
+    ctx.notes[f"truncation_error_{case['lik']}"] = {"n6_10": small, "n60_64": large}
     ctx.cell({k_: v_ for k_, v_ in case.items() if k_ != "seed"})
 
 
